@@ -41,13 +41,76 @@ def score_roles(fn):
 
 
 def dispatch_arms(fn):
-    """the PAT_JUMPS / PAT_THROWS / else chain of score() or performance(): {'jumps': body, 'throws': body, 'time': body}"""
+    """the jumps / throws / else chain of score() or performance(): {'jumps': body, 'throws': body, 'time': body}; the tests may be
+    PAT_JUMPS.match(code) or a membership test in the JUMPS / THROWS collections"""
     for n in ast.walk(fn):
-        if isinstance(n, ast.If) and 'PAT_JUMPS.match' in ast.unparse(n.test) and n.orelse:
+        if isinstance(n, ast.If) and 'JUMPS' in ast.unparse(n.test) and n.orelse:
             nxt = n.orelse
-            if len(nxt) == 1 and isinstance(nxt[0], ast.If) and 'PAT_THROWS.match' in ast.unparse(nxt[0].test) and nxt[0].orelse:
+            if len(nxt) == 1 and isinstance(nxt[0], ast.If) and 'THROWS' in ast.unparse(nxt[0].test) and nxt[0].orelse:
                 return {'jumps': n.body, 'throws': nxt[0].body, 'time': nxt[0].orelse}, n
     return None, None
+
+
+def dispatch_case_rule(ctx, repo, mod, fn, rule):
+    """the key lookup upper-cases the event code (scoring_key); the kind dispatch must accept the same spellings: a pattern closed
+    under case change, or a membership test applied to the upper-cased code"""
+    from .. import rx
+    from ..pats import Pats
+    arms, chain = dispatch_arms(fn)
+    if arms is None:
+        return
+    sk = mod.func('scoring_key') if mod.has_func('scoring_key') else None
+    folds = sk is not None and any(isinstance(c, ast.Call) and call_name(c) in ('upper', 'lower') for c in ast.walk(sk))
+    if not folds:
+        return
+    import re as _re
+    from .. import fold as _fold
+    events = sorted({r['event_code'] for r in repo.const(ATH, '_scoring_table') if isinstance(r, dict) and 'event_code' in r})
+    if len(events) < 20:
+        raise AnalysisError('scoring table events not foldable')
+    env_codes = repo.folded('athlib/codes.py')[0]
+    tests = [chain.test, chain.orelse[0].test]
+    code_param = fn.args.args[1].arg
+    refolded = any(isinstance(a, ast.Assign) and isinstance(a.targets[0], ast.Name) and a.targets[0].id == code_param and isinstance(a.value, ast.Call)
+                   and call_name(a.value) in ('upper', 'lower') and a.lineno < chain.lineno for a in ast.walk(fn))
+
+    def variants(k):
+        return [v for v in {k.lower(), k.capitalize(), k[:1].lower() + k[1:]} if v != k]
+    n_cmp = 0
+    for t in tests:
+        for c in ast.walk(t):
+            if isinstance(c, ast.Call) and call_name(c) in ('match', 'search', 'fullmatch') and isinstance(c.func.value, ast.Name):
+                rc = env_codes.get(c.func.value.id)
+                if not isinstance(rc, _fold.RegexConst):
+                    raise AnalysisError('dispatch pattern %s is not a foldable compiled pattern' % c.func.value.id)
+                fl = rc.flags
+                if isinstance(fl, tuple) and fl[:2] == ('modattr', 're'):
+                    fl = int(getattr(_re, fl[2]))
+                rxc = _re.compile(rc.pattern, fl if isinstance(fl, int) else 0)
+                how = getattr(rxc, call_name(c))
+                bad = [(k, v) for k in events for v in variants(k) if bool(how(k)) != bool(how(v))]
+                n_cmp += len(events)
+                if bad and not refolded:
+                    ctx.finding(rule, '%s::%s::dispatch %s is case sensitive' % (ATH, fn.name, c.func.value.id), ATH, c.lineno,
+                                'the coefficient row is looked up with the upper-cased code, but the dispatch pattern %s treats %r and %r '
+                                'differently: the second spelling finds its row and is scored by another arm' % (c.func.value.id, bad[0][0], bad[0][1]), bad[0][1])
+                else:
+                    ctx.ok(rule, '%s: dispatch pattern %s gives every scored event and its other-case spellings the same arm' % (fn.name, c.func.value.id))
+            if isinstance(c, ast.Compare) and len(c.ops) == 1 and isinstance(c.ops[0], ast.In) and isinstance(c.left, ast.Name) \
+                    and c.left.id == code_param and isinstance(c.comparators[0], ast.Name):
+                coll = env_codes.get(c.comparators[0].id)
+                if not isinstance(coll, (list, tuple, set)):
+                    raise AnalysisError('dispatch collection %s is not foldable' % c.comparators[0].id)
+                bad = [(k, v) for k in events for v in variants(k) if (k in coll) != (v in coll)]
+                n_cmp += len(events)
+                if bad and not refolded:
+                    ctx.finding(rule, '%s::%s::dispatch by membership in %s is case sensitive' % (ATH, fn.name, c.comparators[0].id), ATH, c.lineno,
+                                'the coefficient row is looked up with the upper-cased code (scoring_key), but `%s` compares the code as given with '
+                                'the members of %s: %r is a member and %r is not, so the second spelling finds its row and is scored by another arm'
+                                % (ast.unparse(c), c.comparators[0].id, bad[0][0], bad[0][1]), bad[0][1])
+                else:
+                    ctx.ok(rule, '%s: membership dispatch gives every scored event and its other-case spellings the same arm' % fn.name)
+    ctx.count('scored events compared across letter case in the dispatch of %s' % fn.name, n_cmp)
 
 
 class Sym:
@@ -123,6 +186,7 @@ def run(ctx, repo):
     ctx.rule('R5', 'the unknown-pair guard (key not in table -> None) dominates every table subscript and every may-raise call')
     ctx.rule('R6', 'age path: no undefined names; the factor column selected by find_age is never the text column')
     ctx.rule('R7', 'hurdles remap equals {(F,80H)->100H, (M,80H)->110H, (M,100H)->110H}')
+    ctx.rule('R9', 'the kind dispatch of score() accepts every spelling the (upper-casing) key lookup accepts')
     ctx.rule('R8', 'no history: the shared coefficient rows are never changed in place (the ESAA option affects only its own call); memos are transparent')
 
     # ---- R1
@@ -212,6 +276,7 @@ def run(ctx, repo):
     arms, chain = dispatch_arms(score)
     if arms is None:
         raise AnalysisError('score(): PAT_JUMPS / PAT_THROWS / else dispatch chain not found')
+    dispatch_case_rule(ctx, repo, mod, score, 'R9')
     markname = score.args.args[2].arg
     RL = score_roles(score)
     for kind, body in arms.items():
@@ -459,7 +524,10 @@ def check_text_column(ctx, repo):
     for n in ast.walk(cf):
         if isinstance(n, ast.If) and any(isinstance(x, ast.Return) for x in n.body):
             t = ast.unparse(n.test)
-            if any(p in t for p in ('ax1 < 1', 'ax1 == 0', 'not ax1', 'ax1 <= 0', 'ax < 0', '_ax1 < 1', '_ax1 == 0', 'age <', 'not self._ax1')):
+            # a guard on the index itself, or on the age with the bound at which the index becomes 0: the banded age is <= ages[0]
+            # (find_age stops at the first column that is not below the age, so age == ages[0] still yields index 0)
+            if any(p in t for p in ('ax1 < 1', 'ax1 == 0', 'not ax1', 'ax1 <= 0', 'ax < 0', '_ax1 < 1', '_ax1 == 0', 'not self._ax1',
+                                    '<= ages[0]', '< ages[1]', '< self.min_age', '< min_age')):
                 guarded = True
     idx_subs = [n for n in ast.walk(cf) if isinstance(n, ast.Subscript) and 'ax1' in ast.unparse(n.slice)]
     if not idx_subs:
